@@ -508,6 +508,8 @@ def crafted_values(f):
 
 
 _PLAIN_INT = re.compile(r"\A[ \t]*[+-]?[0-9]+[ \t]*\Z")
+_PY_INT_TEXT = re.compile(r"\A\s*[+-]?\d+(_\d+)*\s*\Z")          # what int(text) reads in base ten: digits (any script), single underscores between digits
+REJECTED = object()
 
 
 def independent_normal(f, v):
@@ -519,6 +521,8 @@ def independent_normal(f, v):
             return True, v
         if isinstance(v, str) and _PLAIN_INT.match(v):
             return True, int(v)
+        if isinstance(v, str) and not _PY_INT_TEXT.match(v):
+            return True, REJECTED                 # text that is not a whole number in base ten (a prefix literal, a float, words) is not an integer
         if type(v) is float and v == v and abs(v) != math.inf:
             return True, int(v)                   # the whole number a finite float is truncated to: int(value)
     return False, None
